@@ -6,6 +6,7 @@ mod c17;
 mod c18;
 mod geom;
 mod heap;
+mod miri;
 mod rng;
 mod sched;
 mod simhooks;
@@ -162,6 +163,9 @@ fn main() {
                 }
             };
             let v: Value = serde_json::from_str(&text).unwrap_or(Value::Null);
+            if v["engine"] == "miri" {
+                std::process::exit(miri::replay(&v));
+            }
             match v["property"].as_str() {
                 Some("C09") => batch::replay_main::<c09::C09World>(&v),
                 Some("C12") => batch::replay_main::<c12::C12World>(&v),
@@ -177,7 +181,11 @@ fn main() {
             let tier = if args[2] == "thorough" { Tier::Thorough } else { Tier::Quick };
             match prop {
                 "C17" => {
-                    let (plan, extra) = plan_c17(tier);
+                    let (plan, mut extra) = plan_c17(tier);
+                    let rep = miri::run("C17", "c17", batch::env_seed(), if tier == Tier::Quick { 32 } else { 1024 });
+                    extra.coverage.insert("miri_engine".into(), rep.json);
+                    extra.extra_violations = rep.violations;
+                    extra.extra_evaluations = rep.executions;
                     batch::parent_main::<c17::C17World>(tier, plan, extra)
                 }
                 "C09" => {
@@ -185,7 +193,11 @@ fn main() {
                     batch::parent_main::<c09::C09World>(tier, plan, extra)
                 }
                 "C12" => {
-                    let (plan, extra) = plan_c12(tier);
+                    let (plan, mut extra) = plan_c12(tier);
+                    let rep = miri::run("C12", "c12", batch::env_seed(), if tier == Tier::Quick { 16 } else { 512 });
+                    extra.coverage.insert("miri_engine".into(), rep.json);
+                    extra.extra_violations = rep.violations;
+                    extra.extra_evaluations = rep.executions;
                     batch::parent_main::<c12::C12World>(tier, plan, extra)
                 }
                 "C18" => {
